@@ -38,6 +38,8 @@ func TestSim(t *testing.T) {
 		workerRun(t)
 	case "replay":
 		workerReplay(t)
+	case "hashes":
+		workerHashes(t)
 	default:
 		fmt.Println("unknown SIM_MODE")
 		os.Exit(2)
@@ -343,4 +345,48 @@ func whyName(w int) string {
 		return names[w]
 	}
 	return "?"
+}
+
+// workerHashes prints, for runs FROM..TO of a property, the hash of the complete event log
+// (every scheduling step with task, site and reason) and the outcome; the determinism
+// self-test diffs this output between processes and GOMAXPROCS settings.
+func workerHashes(t *testing.T) {
+	id := os.Getenv("SIM_PROP")
+	p := props[id]
+	if p == nil {
+		fmt.Println("unknown property", id)
+		os.Exit(2)
+	}
+	tier := os.Getenv("SIM_TIER")
+	if tier == "" {
+		tier = "quick"
+	}
+	vseed := envU64("VERIF_SEED", 1)
+	from, to := envInt("SIM_FROM", 0), envInt("SIM_TO", 32)
+	var lines []string
+	for i := from; i < to; i++ {
+		seed := RunSeed(vseed, id, i)
+		gr := NewRand(seed)
+		meta := genMeta(gr)
+		in := p.Gen(gr, tier)
+		ch := &chooser{mode: modeGen, rng: NewRand(mix(seed, 0x5eed)), switchDen: meta.SwitchDen}
+		cr := execCase(t, p, in, meta, ch, tier, false)
+		outcome := "ok"
+		if cr.fail != nil {
+			outcome = cr.fail.Clause
+		}
+		if cr.trouble != "" {
+			outcome = "TROUBLE " + cr.trouble
+		}
+		lines = append(lines, fmt.Sprintf("%s %d %016x steps=%d sched=%d draws=%d %s", id, i, cr.hash, cr.stats.steps, len(cr.choices.Sched), len(cr.choices.Draws), outcome))
+	}
+	out := ""
+	for _, l := range lines {
+		out += l + "\n"
+	}
+	if op := os.Getenv("SIM_OUT"); op != "" {
+		_ = os.WriteFile(op, []byte(out), 0o644)
+	} else {
+		fmt.Print(out)
+	}
 }
